@@ -611,8 +611,7 @@ Section Props.
     intros flt c fs s' R. unfold run in R.
     destruct (exec flt (MM c) (init fs)) as [res s] eqn:E.
     destruct res as [n|k]; [|destruct k; discriminate]. unfold status_of in R.
-    assert (Hn : Nat.modulo n 256 = 0) by (inversion R; auto).
-    assert (Hs : s = s') by (inversion R; auto). subst s'. clear R.
+    injection R as Hn Hs. change (Nat.modulo n 256 = 0) in Hn. subst s'.
     apply exec_done_nofault in E. unfold main_merge in E. rewrite exec_bind in E.
     simpl (exec None getfs (init fs)) in E. cbv iota beta in E. simpl (s_fs (init fs)) in E.
     destruct (negb (forallb (exists_ fs) [c_base c; c_local c; c_remote c]));
@@ -666,7 +665,9 @@ Section Props.
     (fst (RUN None c fs) = Exit 0 <-> filter dconflict ds = []).
   Proof.
     intros. destruct (finish_complete c fs b l r m ds) as [s' [R _]]; auto.
-    rewrite R. simpl fst. rewrite <- rc_zero_iff. split; intros Q; [inversion Q; auto | rewrite Q; auto].
+    rewrite R. simpl fst. split; intros Q.
+    - apply rc_zero_iff. injection Q as Q. exact Q.
+    - apply rc_zero_iff in Q. f_equal. exact Q.
   Qed.
 
   (* ---------------- faults *)
@@ -677,7 +678,7 @@ Section Props.
     intros flt c fs s' R. unfold run in *.
     destruct (exec flt (MM c) (init fs)) as [res s] eqn:E.
     destruct res as [n|k]; [|destruct k; discriminate]. unfold status_of in R.
-    assert (Hs : s = s') by (inversion R; auto). subst s'.
+    assert (Hs : s = s') by (injection R; auto). subst s'.
     split; [apply exec_done_not_fired in E; auto|]. apply exec_done_nofault in E. rewrite E. exact R.
   Qed.
 
